@@ -33,6 +33,23 @@ func init() {
 	FieldUpdateOperators["$pullAll"] = applyPullAll
 	FieldUpdateOperators["$addToSet"] = applyAddToSet
 	FieldUpdateOperators["$bit"] = applyBit
+
+	// let every operator claim its path before it runs, so that conflicting
+	// paths are rejected even if one of the operators turns out to be a no-op
+	for name, operator := range FieldUpdateOperators {
+		FieldUpdateOperators[name] = claimPath(operator)
+	}
+}
+
+func claimPath(operator Operator) Operator {
+	return func(ctx Context, doc bsonkit.Doc, name, path string, v interface{}) error {
+		err := ctx.Value.(*Changes).claim(path)
+		if err != nil {
+			return err
+		}
+
+		return operator(ctx, doc, name, path, v)
+	}
 }
 
 // Changes record the applied changes to a document.
@@ -47,6 +64,24 @@ type Changes struct {
 
 	// the temporary tree to track key conflicts
 	pathTree bsonkit.PathNode
+
+	// the temporary tree to track the paths claimed by operators
+	claimTree bsonkit.PathNode
+}
+
+// claim will mark the path as used by an operator. It will return an error if
+// the path is equal to, a parent or a child of an already claimed path.
+func (c *Changes) claim(path string) error {
+	// check if path conflicts with another claimed path
+	node, rest := c.claimTree.Lookup(path)
+	if node.Load() == true || rest == bsonkit.PathEnd {
+		return fmt.Errorf("conflicting key %q", path)
+	}
+
+	// add path to tree
+	c.claimTree.Append(path).Store(true)
+
+	return nil
 }
 
 // Record will record a field change. If the value is bsonkit.Missing it will
@@ -79,9 +114,10 @@ func Apply(doc, query, update bsonkit.Doc, upsert bool, arrayFilters bsonkit.Lis
 
 	// prepare changes
 	changes := &Changes{
-		Upsert:   upsert,
-		Changed:  map[string]interface{}{},
-		pathTree: bsonkit.NewPathNode(),
+		Upsert:    upsert,
+		Changed:   map[string]interface{}{},
+		pathTree:  bsonkit.NewPathNode(),
+		claimTree: bsonkit.NewPathNode(),
 	}
 
 	// update document according to update
@@ -99,6 +135,8 @@ func Apply(doc, query, update bsonkit.Doc, upsert bool, arrayFilters bsonkit.Lis
 	// recycle tree
 	changes.pathTree.Recycle()
 	changes.pathTree = nil
+	changes.claimTree.Recycle()
+	changes.claimTree = nil
 
 	return changes, nil
 }
@@ -184,6 +222,12 @@ func applyRename(ctx Context, doc bsonkit.Doc, name, path string, v interface{})
 		return fmt.Errorf("%s: source and target paths cannot overlap", name)
 	}
 
+	// claim the target as well
+	err := ctx.Value.(*Changes).claim(newPath)
+	if err != nil {
+		return err
+	}
+
 	// read source without mutating; if absent, $rename is a no-op
 	value := bsonkit.Get(doc, path)
 	if value == bsonkit.Missing {
@@ -192,7 +236,7 @@ func applyRename(ctx Context, doc bsonkit.Doc, name, path string, v interface{})
 
 	// write to target first; if this fails, the document is unchanged and
 	// the error is surfaced atomically rather than after a partial mutation
-	_, err := bsonkit.Put(doc, newPath, value, false)
+	_, err = bsonkit.Put(doc, newPath, value, false)
 	if err != nil {
 		return err
 	}
